@@ -7,6 +7,8 @@ The theorems relate `setValue` / `removeValue` of `Model/Edit.lean` to that spec
 path text and value in the stated class.
 -/
 namespace Nima.C05
+-- name tokens are compared by spelling in this file (see `NameCmp` in Model/Edit.lean)
+attribute [local instance] NameCmp.spelled
 open Nima Node
 
 /-- "the value now at the path is not a reference": neither an identifier-valued binding nor an
@@ -72,7 +74,7 @@ theorem set_nested_explicit_refines (d : Doc) (hw : WF d) (p : Text) (seg0 seg1 
           rw [hsplit]; exact hnoref
         | false =>
           have : par.setValues = [] := by cases par <;> simp_all [isSet, setValues]
-          exact ⟨fun b hb => by simp [this, findBinding] at hb, by simp [this, inheritMentions]⟩
+          exact ⟨fun b hb => by simp [this, findBinding_spelled] at hb, by simp [this, inheritMentions]⟩
       rw [← ht] at hwk
       obtain ⟨_, Y, hY, hd⟩ := nested_set_refines (Node.set c vs o m r) true final v _ d d.target [] parent d1 d'
         hinv rfl hw.isSet hplain hfin hwk hfs
@@ -593,7 +595,7 @@ theorem cex_inherit_duplicate :
 theorem cex_set_plain_full : ¬ set_plain_full := by
   intro h
   obtain ⟨d', e, hs⟩ := h docInherit "v".toList "v".toList (A "7") docInherit_wf rfl rfl
-    (fun b hb => by simp [docInherit, setValues, findBinding, isBind] at hb)
+    (fun b hb => by simp [docInherit, setValues, findBinding_spelled, isBind] at hb)
   have h1 := cex_inherit_duplicate.2.2
   have : d' = (setValue "v".toList (.one (A "7")) docInherit).2 := by rw [e]
   rw [this] at hs
